@@ -7,7 +7,7 @@ from sa.absint import Evaluator, all_effects, flatten_effects
 from sa.index import AnalysisError, walk_no_nested
 from sa.teval import Unknown, teval
 from sa.terms import App, Const, Ref, Sym, cases, subterms
-from . import argname, frozen
+from . import argname, frozen, generic
 from .c04 import strip_sites
 from .c11 import _with_guards
 
@@ -203,7 +203,9 @@ def key_match(ctx, ev):
     R.rule("C09-D3 key/algorithm match", 6, "the key type check dominates the signing call, fails closed, and covers exactly the five algorithms")
     algs = repo.cls("suit_generator.suit_sign_script_base", "SuitSignAlgorithms")
     values = sorted(v.v for _, v in ctx.ev.enum_members(algs))
+    R.rule("C09-D3b checked key = signing key", 2, "every read of the key in one sign() call uses the same file under the key directory")
     for impl in repo.subclasses(repo.cls("suit_generator.suit_kms_base", "SuitKMSBase")):
+        generic.key_file_rule(ctx, "C09-D3b checked key = signing key", impl, "sign")
         sg = impl.methods["sign"]
         fq = ctx.fq(sg)
         outs = ev.outcomes(sg)
